@@ -585,7 +585,7 @@ def streams(tier):
         (core.Stream("fedsession", "fedsession", gen_session, pred_session, nontriv_session, keep_prefix=1), 4000 * k),
         (core.Stream("fedsession-shared", "fedsession", lambda rng: gen_session(rng, True), pred_session, nontriv_session, keep_prefix=1), 300 * k),
         (core.Stream("localsubs", "localsubs", gen_local, pred_local, nontriv_local, keep_prefix=1), 4000 * k),
-        (core.Stream("fedsim", "fedsim", gen_sim, pred_sim, nontriv_sim, keep_prefix=1, timeout=600), 400 * k),
+        (core.Stream("fedsim", "fedsim", gen_sim, pred_sim, nontriv_sim, keep_prefix=1, timeout=150), 400 * k),
     ]
 
 def extra(r):
